@@ -390,19 +390,32 @@ class SATEncoder:
         max_end = max(s.ub + d for s, d in zip(starts, durations))
 
         for t in range(min_start, max_end):
-            active_lits = []
-            active_demands = []
+            # For each task, the start literals that make it run at time t
+            running: list[tuple[list[int], int]] = []
             for i in range(n):
-                for s in range(max(starts[i].lb, t - durations[i] + 1), min(starts[i].ub, t) + 1):
-                    if s in starts[i].bool_vars and s <= t < s + durations[i]:
-                        active_lits.append(starts[i].bool_vars[s])
-                        active_demands.append(demands[i])
+                lits = [
+                    starts[i].bool_vars[s]
+                    for s in range(max(starts[i].lb, t - durations[i] + 1), min(starts[i].ub, t) + 1)
+                    if s in starts[i].bool_vars and s <= t < s + durations[i]
+                ]
+                if lits and demands[i] > 0:
+                    running.append((lits, demands[i]))
 
-            if not active_lits:
+            if sum(d for _, d in running) <= capacity:
                 continue
 
-            if len(active_lits) <= 10:
-                self._encode_capacity_constraint(active_lits, active_demands, capacity)
+            # One indicator per task ("task runs at t"), so the subsets range over tasks, not literals
+            indicators = []
+            for lits, _ in running:
+                if len(lits) == 1:
+                    indicators.append(lits[0])
+                else:
+                    indicator = self._new_bool_var()
+                    for lit in lits:
+                        self._clauses.append([-lit, indicator])
+                    indicators.append(indicator)
+
+            self._encode_capacity_constraint(indicators, [d for _, d in running], capacity)
 
     def _encode_capacity_constraint(self, lits: list[int], demands: list[int], capacity: int) -> None:
         """Encode sum constraint: if all lits true, demands sum must <= capacity."""
